@@ -1197,12 +1197,16 @@ Proof.
     + destruct (depth_bind_all _ _ _ _ _ Eb) as [D2 H2]. simpl in D2, H2.
       match type of E with context[tev_begin ?a ?b ?c ?dd ?e] => destruct (tev_begin a b c dd e) as [r3 s3] eqn:Et end.
       assert (Hb : depth s3 = d /\ (hwm s3 <= B)%nat).
-      { eapply Hbody; [| |exact Et]; [congruence|rewrite H2; exact Hh]. }
+      { eapply (Hbody _ _ s2); [rewrite D2; exact Hd|rewrite H2; exact Hh|exact Et]. }
       destruct r3 as [v|[l|l|e0|vs|]|]; try (inversion E; subst; exact Hb).
       destruct (zip_params ps rest vs []) as [binds'|]; [|inversion E; subst; exact Hb].
       destruct Hb as [Hb1 Hb2]. eapply IH; [exact Hb1|exact Hb2|exact E].
-    + inversion E; subst. destruct (depth_bind_all _ _ _ _ _ Eb) as [D2 H2]. simpl in D2, H2. split; [congruence|rewrite H2; exact Hh].
-    + inversion E; subst. destruct (depth_bind_all _ _ _ _ _ Eb) as [D2 H2]. simpl in D2, H2. split; [congruence|rewrite H2; exact Hh].
+    + destruct (depth_bind_all _ _ _ _ _ Eb) as [D2 H2]. simpl in D2, H2.
+      assert (X : depth s2 = d /\ (hwm s2 <= B)%nat) by (split; [rewrite D2; exact Hd|rewrite H2; exact Hh]).
+      destruct (bind_all_sig _ _ _ _ _ Eb) as [e0 He]. subst g. inversion E; subst; exact X.
+    + destruct (depth_bind_all _ _ _ _ _ Eb) as [D2 H2]. simpl in D2, H2.
+      assert (X : depth s2 = d /\ (hwm s2 <= B)%nat) by (split; [rewrite D2; exact Hd|rewrite H2; exact Hh]).
+      inversion E; subst; exact X.
 Qed.
 
 (* ---- tail positions ---- *)
@@ -1230,8 +1234,8 @@ Section Flags.
     destruct r as [|e2 r]; [reflexivity|].
     change (tev_begin ev tl env ((e :: e2 :: r) ++ [l]) s) with ((_ <- ev false env e ;; tev_begin ev tl env ((e2 :: r) ++ [l])) s).
     change (tev_begin ev false env (e :: e2 :: r)) with (_ <- ev false env e ;; tev_begin ev false env (e2 :: r)).
-    unfold bindM at 1 3 4. destruct (ev false env e s) as [[a|g|] s1]; try reflexivity.
-    rewrite IH. reflexivity.
+    unfold bindM. destruct (ev false env e s) as [[a|g|] s1]; try reflexivity.
+    rewrite IH. unfold bindM. reflexivity.
   Qed.
 
   (* every arm body and the default get the flag, the tests get false *)
@@ -1242,25 +1246,37 @@ Section Flags.
 
   (* the last arm of and / or gets the flag, the arms before it get false *)
   Lemma tev_and_flags : forall tl env e e2 r,
-    tev_and ev tl env [e] = ev tl env e /    tev_and ev tl env (e :: e2 :: r) = (v <- ev false env e ;; if truthy v then tev_and ev tl env (e2 :: r) else ret v).
+    tev_and ev tl env [e] = ev tl env e /\
+    tev_and ev tl env (e :: e2 :: r) = (v <- ev false env e ;; if truthy v then tev_and ev tl env (e2 :: r) else ret v).
   Proof. intros. split; reflexivity. Qed.
   Lemma tev_or_flags : forall tl env e e2 r,
-    tev_or ev tl env [e] = ev tl env e /    tev_or ev tl env (e :: e2 :: r) = (v <- ev false env e ;; if truthy v then ret v else tev_or ev tl env (e2 :: r)).
+    tev_or ev tl env [e] = ev tl env e /\
+    tev_or ev tl env (e :: e2 :: r) = (v <- ev false env e ;; if truthy v then ret v else tev_or ev tl env (e2 :: r)).
   Proof. intros. split; reflexivity. Qed.
 End Flags.
 
 (* one step of the evaluator: which sub-forms receive the flag tl, which receive false *)
 Theorem tail_flag_rules_proof : forall strict count n self tl env,
   let ev := eval_tco strict count n self in
-  (forall es, eval_tco strict count (S n) self tl env (EBegin es) = tev_begin ev tl env es) /  (forall arms d, eval_tco strict count (S n) self tl env (ECond arms d) = tev_cond ev tl env arms d) /  (forall es, eval_tco strict count (S n) self tl env (EAnd es) = tev_and ev tl env es) /  (forall es, eval_tco strict count (S n) self tl env (EOr es) = tev_or ev tl env es) /  (forall es s, eval_tco strict count (S n) self tl env (EScope es) s =
-                let '(f, s1) := push_frame s in tev_begin ev tl (f :: env) es s1) /  (forall bs body s, eval_tco strict count (S n) self tl env (ELet false bs body) s =
+  (forall es, eval_tco strict count (S n) self tl env (EBegin es) = tev_begin ev tl env es) /\
+  (forall arms d, eval_tco strict count (S n) self tl env (ECond arms d) = tev_cond ev tl env arms d) /\
+  (forall es, eval_tco strict count (S n) self tl env (EAnd es) = tev_and ev tl env es) /\
+  (forall es, eval_tco strict count (S n) self tl env (EOr es) = tev_or ev tl env es) /\
+  (forall es s, eval_tco strict count (S n) self tl env (EScope es) s =
+                let '(f, s1) := push_frame s in tev_begin ev tl (f :: env) es s1) /\
+  (forall bs body s, eval_tco strict count (S n) self tl env (ELet false bs body) s =
                 let '(f, s1) := push_frame s in
                 (vs <- ev_list (ev false) (f :: env) (map snd bs) ;;
-                 _ <- bind_all f (rev (combine (map fst bs) vs)) ;; tev_begin ev tl (f :: env) body) s1) /  (forall bs body s, eval_tco strict count (S n) self tl env (ELet true bs body) s =
+                 _ <- bind_all f (rev (combine (map fst bs) vs)) ;; tev_begin ev tl (f :: env) body) s1) /\
+  (forall bs body s, eval_tco strict count (S n) self tl env (ELet true bs body) s =
                 let '(f, s1) := push_frame s in
-                (_ <- ev_letseq (ev false) f (f :: env) bs ;; tev_begin ev tl (f :: env) body) s1) /  (forall es, eval_tco strict count (S n) self tl env (EArr es) = (vs <- ev_list (ev false) env es ;; alloc_arr vs None)) /  (forall x e, eval_tco strict count (S n) self tl env (EDef x e) = (v <- ev false env e ;; _ <- bind (hd O env) x v ;; ret v)) /  (forall lbl i t st body s, eval_tco strict count (S n) self tl env (EFor lbl i t st body) s =
+                (_ <- ev_letseq (ev false) f (f :: env) bs ;; tev_begin ev tl (f :: env) body) s1) /\
+  (forall es, eval_tco strict count (S n) self tl env (EArr es) = (vs <- ev_list (ev false) env es ;; alloc_arr vs None)) /\
+  (forall x e, eval_tco strict count (S n) self tl env (EDef x e) = (v <- ev false env e ;; _ <- bind (hd O env) x v ;; ret v)) /\
+  (forall lbl i t st body s, eval_tco strict count (S n) self tl env (EFor lbl i t st body) s =
                 let '(f, s1) := push_frame s in
-                (_ <- no_loop_sig EUnspec (ev false (f :: env) i) ;; for_loop (ev false) n (f :: env) lbl t st body) s1) /  (forall f args, is_self self tl f (length args) = None ->
+                (_ <- no_loop_sig EUnspec (ev false (f :: env) i) ;; for_loop (ev false) n (f :: env) lbl t st body) s1) /\
+  (forall f args, is_self self tl f (length args) = None ->
                 eval_tco strict count (S n) self tl env (ECall f args) = call_expr (ev false) (apply_tco strict count n) env f args).
 Proof.
   intros. repeat split; intros; try reflexivity. simpl. rewrite H. reflexivity.
